@@ -96,7 +96,18 @@ def unquote_tla(s):
     return s.replace('\\"', '"').replace("\\\\", "\\")
 
 
+_MC_CACHE = {}
+
+
 def run_mc(module, cfg, name, workers=NCPU, timeout=3600, heap="8g"):
+    """Cached wrapper: one TLC run per (module, cfg) per process."""
+    k = (module, cfg)
+    if k not in _MC_CACHE:
+        _MC_CACHE[k] = _run_mc(module, cfg, name, workers, timeout, heap)
+    return _MC_CACHE[k]
+
+
+def _run_mc(module, cfg, name, workers=NCPU, timeout=3600, heap="8g"):
     """Exhaustive model check of a bounded configuration. Returns states,
     transitions and the abstract programs TLC printed (one per initial state
     or per explored edge, depending on the spec)."""
@@ -169,7 +180,16 @@ def drive(fam, progs, name, shards=NCPU, race=False, timeout=1800):
         pin = os.path.join(d, "progs.%d.ndjson" % i)
         pout = os.path.join(d, "traces.%d.ndjson" % i)
         write_ndjson(pin, parts[i])
-        p = subprocess.run([exe, "-fam", fam, "-in", pin, "-out", pout], capture_output=True, text=True, timeout=timeout)
+        env = dict(os.environ, GORACE="halt_on_error=1 exitcode=66") if race else None
+        p = subprocess.run([exe, "-fam", fam, "-in", pin, "-out", pout], capture_output=True, text=True, timeout=timeout, env=env)
+        if race and (p.returncode == 66 or "DATA RACE" in p.stderr):
+            # the race detector stopped the driver: record it as an event of the program that was running
+            done = sum(1 for l in open(pout) if '"e":"Reset"' in l) if os.path.exists(pout) else 0
+            with open(pout, "a") as f:
+                f.write(json.dumps({"e": "Reset", "tid": parts[i][min(done, len(parts[i]) - 1)]["id"] + "/race", "conns": [], "pms": [], "crypto": True,
+                                    "role": "server", "pmce": False, "raw": False, "cfg": {}, "fr": []}) + "\n")
+                f.write(json.dumps({"e": "RACE", "report": p.stderr[-1500:]}) + "\n")
+            return pout
         if p.returncode != 0:
             raise Infra("driver failed (shard %d): %s" % (i, p.stdout + p.stderr))
         return pout
